@@ -18,7 +18,10 @@ LEVEL = "exploration"
 RULE = ("random sessions of 5-30 operations (listscripts, getscript, putscript, setactive, "
         "deletescript, renamescript native or emulated, havespace, checkscript, capability) "
         "over a pool of 5 names against R-MS with quota, random status-text encodings "
-        "(quoted/literal), response codes and random recv() segmentation; two strata: "
+        "(quoted/literal), response codes and random recv() segmentation, with occasional "
+        "re-connects of the same client object (after a logout or not; accepted, or refused "
+        "at the greeting / the login, after which every script operation must be refused "
+        "locally); two strata: "
         "'conventional' (names quoted, bodies literal - every data result compared) and "
         "'any-encoding' (names/bodies quoted or literal at random, hostile names - data "
         "equality of listings/bodies is C17's, everything else compared). Non-trivial = "
@@ -32,10 +35,12 @@ ASSUMPTIONS = [
 ]
 FLOORS = {"quick": {"sessions": 5000, "steps": 60000, "steps:NO-outcomes": 6000,
                     "emulated-renames": 1000, "segmented-sessions": 2000,
-                    "socketpair-sessions": 150},
+                    "socketpair-sessions": 150, "reconnects": 1500,
+                    "reconnects-refused": 500},
           "thorough": {"sessions": 500000, "steps": 6000000, "steps:NO-outcomes": 600000,
                        "emulated-renames": 90000, "segmented-sessions": 200000,
-                       "socketpair-sessions": 3000}}
+                       "socketpair-sessions": 3000, "reconnects": 100000,
+                       "reconnects-refused": 30000}}
 SHARD_TIMEOUT = {"quick": 600, "thorough": 3000}
 
 NAMES_CONV = ["main", "vacation", "x y", "été", "spam-rules"]
@@ -135,6 +140,72 @@ def _run_steps(rng, res, idx, sess, srv, conv, names, version, segmented, real_s
     uid = 0
     nsteps = rng.randint(5, 30)
     for k in range(nsteps):
+        if not real_socket and rng.random() < 0.06:
+            # a new connection on the same client object (with or without a logout first):
+            # same script store, fresh connection state; sometimes the login is refused
+            if rng.random() < 0.4:
+                sess.call("logout")
+            old = srv
+            good = rng.random() < 0.5
+            srv = ms.Server(rng=random.Random(rng.randrange(1 << 30)), users={b"user": b"pw"},
+                            version=version, quota=400, encodings="mixed",
+                            faults={} if good else {rng.choice(["auth-verdict", "greeting"]):
+                                                    rng.choice(["NO", "BYE"])})
+            srv.scripts, srv.active = old.scripts, old.active
+            for attr in ("how_script", "do_listscripts"):
+                if attr in old.__dict__:
+                    pass
+            if conv:
+                srv.how_script = lambda: "literal"
+
+                def do_list(args, srv=srv):
+                    if not srv._want(args):
+                        return
+                    for name in srv.scripts:
+                        srv.emit(ms.quoted(name))
+                        if name == srv.active:
+                            srv.emit(b" ACTIVE")
+                        srv.emit(ms.CRLF)
+                    srv.final("OK", None, b"Listscripts completed.")
+                srv.do_listscripts = do_list
+            sess.server = srv
+            r2 = sess.connect("user", "pw")
+            steps.append(["connect", "accepted" if good else "refused", repr(r2)[:40]])
+            res.count("reconnects")
+            if good and r2 != ("ret", True):
+                res.violation({"op": "connect", "problem": "reconnect-failed",
+                               "stratum": "reconnect"}, {"steps": steps, "outcome": repr(r2)})
+                return
+            if not good:
+                res.count("reconnects-refused")
+                if r2 == ("ret", True) or sess.client.authenticated:
+                    res.violation({"op": "connect", "problem": "refused-login-reported-success",
+                                   "stratum": "reconnect"}, {"steps": steps, "outcome": repr(r2)})
+                    return
+                # every script operation must now be refused locally, nothing may reach
+                # the unauthenticated connection
+                mark = sess.wire.mark()
+                o3 = sess.call("listscripts")
+                sent = sess.wire.sent_since(mark)
+                if not (o3[0] == "exc" and o3[1] == "Error") or sent or srv.violations:
+                    res.violation({"op": "listscripts", "stratum": "reconnect",
+                                   "problem": "script-command-on-unauthenticated-connection"},
+                                  {"steps": steps, "outcome": repr(o3)[:120], "sent": sent[:80],
+                                   "server_violations": srv.violations[:2]})
+                    return
+                # log in again properly and go on
+                srv = ms.Server(rng=random.Random(rng.randrange(1 << 30)),
+                                users={b"user": b"pw"}, version=version, quota=400,
+                                encodings="mixed")
+                srv.scripts, srv.active = old.scripts, old.active
+                if conv:
+                    srv.how_script = lambda: "literal"
+                    srv.do_listscripts = (lambda s: (lambda args: do_list(args, s)))(srv)
+                sess.server = srv
+                if sess.connect("user", "pw") != ("ret", True):
+                    res.inconclusive.append("could not log in again")
+                    return
+            continue
         ops = ["listscripts", "getscript", "putscript", "putscript", "setactive",
                "deletescript", "renamescript", "havespace", "capability"]
         if version:
@@ -147,8 +218,9 @@ def _run_steps(rng, res, idx, sess, srv, conv, names, version, segmented, real_s
             args = (rng.choice(names + [""]),)
         elif op == "putscript":
             uid += 1
-            body = "# id-%d-%d\r\n%s" % (idx, uid, rng.choice(
+            body = ("" if rng.random() < 0.05 else "# id-%d-%d\r\n" % (idx, uid)) + "%s" % (rng.choice(
                 ["keep;\r\n", "stop;", 'OK "x"\r\nkeep;\r\n', "x" * rng.choice([10, 150, 390]),
+                 "",
                  "été €\r\n", "# ff\x0c ls\u2028 nel\x85 end\r\nkeep;\r\n"]))
             args = (n1, body)
         elif op == "renamescript":
